@@ -152,6 +152,10 @@ func attrClasses(r *core.Rng, full bool) []abs.Transform {
 	l = append(l, abs.Transform{HasAttr: true, TV: false, AttrType: 14, AttrBytes: abs.HB{0, 128}})
 	l = append(l, abs.Transform{HasAttr: true, TV: false, AttrType: 14, AttrBytes: abs.HB{1, 0}})
 	l = append(l, abs.Transform{HasAttr: true, TV: false, AttrType: 14, AttrBytes: abs.HB{128}})
+	// TLV values whose LENGTH looks like a key size (in octets or in bits)
+	for _, n := range []int{16, 24, 32, 128, 192, 256} {
+		l = append(l, abs.Transform{HasAttr: true, TV: false, AttrType: 14, AttrBytes: make(abs.HB, n)})
+	}
 	return l
 }
 
@@ -261,7 +265,7 @@ func c11(c *core.Ctx) {
 					if wired != nil {
 						c11Judge(k, fi, t, wired, "wire")
 					}
-					k.Distinct(fmt.Sprintf("%s|%s|a%d|%v", fn.name, idc, minI(ci, 40), wired != nil))
+					k.Distinct(fmt.Sprintf("%s|%s|a%d|%v", fn.name, idc, minI(ci, 60), wired != nil))
 				}
 			}
 		}
